@@ -52,20 +52,33 @@ Proof.
   apply fname_eqb_eq in E. subst. now apply in_map.
 Qed.
 
+Lemma fresh_from_some fs sec : forall fuel n r, fresh_from fs sec fuel n = Some r -> name_taken fs (NGen sec r) = false.
+Proof.
+  induction fuel as [|fuel IH]; intros n r; cbn [fresh_from]; [discriminate|].
+  destruct (name_taken fs (NGen sec n)) eqn:E; [apply IH|]. intros [= <-]. exact E.
+Qed.
+Lemma fresh_from_none fs sec : forall fuel n, fresh_from fs sec fuel n = None ->
+  forall i, (i < fuel)%nat -> name_taken fs (NGen sec (n + N.of_nat i)) = true.
+Proof.
+  induction fuel as [|fuel IH]; intros n H i Hi; [lia|]. cbn [fresh_from] in H.
+  destruct (name_taken fs (NGen sec n)) eqn:E; [|discriminate].
+  destruct i as [|i].
+  - now rewrite N.add_0_r.
+  - specialize (IH _ H i ltac:(lia)). replace (n + N.of_nat (S i)) with (N.succ n + N.of_nat i) by lia. exact IH.
+Qed.
+
 Lemma fresh_n_some fs sec : exists n, fresh_n fs sec = Some n /\ name_taken fs (NGen sec n) = false.
 Proof.
-  unfold fresh_n. destruct (find _ _) as [n|] eqn:E.
-  - exists n. split; [reflexivity|]. apply find_some in E as [_ E]. now apply negb_true_iff in E.
+  unfold fresh_n. destruct (fresh_from fs sec (S (length fs)) 0) as [n|] eqn:E.
+  - exists n. split; [reflexivity|]. eapply fresh_from_some; eauto.
   - exfalso.
-    set (cands := map (fun i => NGen sec (N.of_nat i)) (seq 0 (S (length fs)))).
+    set (cands := map (fun i => NGen sec (0 + N.of_nat i)) (seq 0 (S (length fs)))).
     assert (Hnd : NoDup cands).
     { unfold cands. apply Injective_map_NoDup; [|apply seq_NoDup].
-      intros a b H. injection H as H. now apply Nat2N.inj in H. }
+      intros a b H. injection H as H. lia. }
     assert (Hincl : incl cands (map f_name fs)).
     { intros nm Hnm. unfold cands in Hnm. apply in_map_iff in Hnm as (i & <- & Hi).
-      apply name_taken_true.
-      pose proof (find_none _ _ E (N.of_nat i)) as Hn. cbn beta in Hn.
-      apply negb_false_iff. apply Hn. now apply in_map. }
+      apply name_taken_true. apply (fresh_from_none _ _ _ _ E). apply in_seq in Hi. lia. }
     pose proof (NoDup_incl_length Hnd Hincl) as Hlen.
     unfold cands in Hlen. rewrite !map_length, seq_length in Hlen. lia.
 Qed.
